@@ -59,6 +59,19 @@ func seedFiles(r *rng, small bool) []seedFile {
 		d, n = jd.build()
 		out = append(out, seedFile{"jpeg-icc" + map[bool]string{true: "1", false: "0"}[withICC], "jpeg", d, n})
 	}
+	if !small {
+		// a small profile chunk inside the first buffer-full, kilobytes of other segments, then the frame header
+		for _, com := range []int{5000, 9000} {
+			p := randProfilePayload(r, 560)
+			jd := randJpegDesc(r)
+			jd.segsBefore = nil
+			jd.iccSegs = splitICC(p, []int{len(p)})
+			jd.iccAfterSOF = false
+			jd.interleave = []jpegSeg{{0xfe, r.bytes(com)}}
+			d, n := jd.build()
+			out = append(out, seedFile{fmt.Sprintf("jpeg-icc-early-sof-late-%d", com), "jpeg", d, n})
+		}
+	}
 	for _, k := range []string{"VP8", "VP8L", "VP8X"} {
 		wd := randWebpDesc(r, k, nil)
 		d, n := wd.build()
